@@ -136,6 +136,17 @@ def rule_conversions(ctx, R):
             p = single(ctx, R, "C14-R2", f, "From<%s>" % typed)
             if p is not None:
                 R.check(N(p.ret) == ("vfield", ("arg", 1), "inner"), "C14-R2", "From<%s> for %s" % (typed, any_ty), "value preserving (.inner)", "from() returns %s" % show(N(p.ret)), where_of(f), fn=f.key)
+        # the dynamic->typed conversions are also what keeps a handle of another archetype out of the typed resolvers:
+        # the same instances are judged for C03 (foreign handles never match) and, for direct handles, for C09
+        ids2 = ["C14-R2", "C03-R8"] + (["C09-R7"] if typed == "EntityDirect" else [])
+
+        def chk(cond, key, okd, faild, where=None, fn=None, _ids=ids2):
+            for rid in _ids:
+                R.check(cond, rid, key, okd, faild, where, fn=fn)
+
+        def flr(key, detail, where=None, fn=None, _ids=ids2):
+            for rid in _ids:
+                R.fail(rid, key, detail, where, fn=fn)
         tf = [fn for pth, fn in ctx.gecs.fns.items() if pth == "<entity::%s<A> as std::convert::TryFrom<entity::%s>>::try_from" % (typed, any_ty)]
         if not tf:
             R.anchor_missing("TryFrom<%s> for %s<A>" % (any_ty, typed))
@@ -144,7 +155,7 @@ def rule_conversions(ctx, R):
             key = "TryFrom<%s> for %s" % (any_ty, typed)
             ok_paths = ps is not None and len(ps) == 2
             if not ok_paths:
-                R.fail("C14-R2", key + "|paths", "expected exactly an Ok and an Err path", where_of(f), fn=f.key)
+                flr(key + "|paths", "expected exactly an Ok and an Err path", where_of(f), fn=f.key)
                 continue
             for p in ps:
                 ret = NK(p.ret)
@@ -157,13 +168,13 @@ def rule_conversions(ctx, R):
                 if ret[0] == "agg" and ret[3] == "Ok":
                     pay = ret[4][0][1]
                     okp = pay[0] == "agg" and dict(pay[4]).get("inner") == ("arg", 1)
-                    R.check(eq is True and okp, "C14-R2", key + "|ok", "Ok(handle with the argument as inner) iff id(key) == A::ARCHETYPE_ID",
+                    chk(eq is True and okp, key + "|ok", "Ok(handle with the argument as inner) iff id(key) == A::ARCHETYPE_ID",
                             "Ok path: guard %s payload %s" % (describe_atoms(ats), show(pay)), where_of(f), fn=f.key)
                 elif ret[0] == "agg" and ret[3] == "Err":
                     okp = ret[4][0][1][0] == "agg" and ret[4][0][1][3] == "InvalidEntityType"
-                    R.check(eq is False and okp, "C14-R2", key + "|err", "Err(InvalidEntityType) otherwise", "Err path: guard %s value %s" % (describe_atoms(ats), show(ret)), where_of(f), fn=f.key)
+                    chk(eq is False and okp, key + "|err", "Err(InvalidEntityType) otherwise", "Err path: guard %s value %s" % (describe_atoms(ats), show(ret)), where_of(f), fn=f.key)
                 else:
-                    R.fail("C14-R2", key + "|ret", "unexpected return %s" % show(ret), where_of(f), fn=f.key)
+                    flr(key + "|ret", "unexpected return %s" % show(ret), where_of(f), fn=f.key)
         f = getfn(ctx, R, "entity::%s::<A>::from_any" % typed)
         if f is not None:
             ps = ctx.paths(f)
@@ -173,10 +184,10 @@ def rule_conversions(ctx, R):
                 good = len(ats) == 1 and ats[0][0][0] == "cmp" and ats[0][0][1] == "Eq" and ats[0][0][2] == idexpr
                 if p.end == "return":
                     ret = N(p.ret)
-                    R.check(good and ats[0][1] is True and dict(ret[4]).get("inner") == ("arg", 1), "C14-R2", key + "|ok", "returns the handle iff ids match", "from_any returns under %s" % describe_atoms(ats), where_of(f), fn=f.key)
+                    chk(good and ats[0][1] is True and dict(ret[4]).get("inner") == ("arg", 1), key + "|ok", "returns the handle iff ids match", "from_any returns under %s" % describe_atoms(ats), where_of(f), fn=f.key)
                 else:
-                    R.check(good and ats[0][1] is False and isinstance(p.end, tuple) and p.end[0] == "diverge", "C14-R2", key + "|panic", "panics iff ids differ", "from_any diverges under %s" % describe_atoms(ats), where_of(f), fn=f.key)
-            R.check(ps is not None and len(ps) == 2, "C14-R2", key + "|paths", "two paths", "from_any has %s paths" % (None if ps is None else len(ps)), where_of(f), fn=f.key)
+                    chk(good and ats[0][1] is False and isinstance(p.end, tuple) and p.end[0] == "diverge", key + "|panic", "panics iff ids differ", "from_any diverges under %s" % describe_atoms(ats), where_of(f), fn=f.key)
+            chk(ps is not None and len(ps) == 2, key + "|paths", "two paths", "from_any has %s paths" % (None if ps is None else len(ps)), where_of(f), fn=f.key)
         f = getfn(ctx, R, "entity::%s::<A>::from_any_unchecked" % typed)
         if f is not None:
             p = single(ctx, R, "C14-R2", f, typed + "::from_any_unchecked")
@@ -210,24 +221,32 @@ def rule_conversions(ctx, R):
         key = "EntityAny::from_raw"
         R.check(ps is not None and len(ps) == 2, "C14-R3", key + "|paths", "one Ok and one Err path", "from_raw has %s paths" % (None if ps is None else len(ps)), where_of(f), fn=f.key)
         nz = ("call", "std::num::NonZero::<T>::new", (("vfield", ("arg", 1), "1"),))
+        # semantic form, indifferent to `?`/ok_or/match/if-let: the only thing from_raw decides on is whether
+        # NonZero::new(raw.1) is Some; Ok carries raw.0 and that NonZero; Err is InvalidRawEntity
+        def on_nz(c):
+            return contains(c, lambda x: x == nz)
+
+        def mentions_invalid_raw(v):
+            return contains(v, lambda x: x[0] == "agg" and len(x) > 3 and x[3] == "InvalidRawEntity")
+
         for p in ps or ():
             if p.end != "return":
                 R.fail("C03-R6", key + "|exit", "from_raw has a non-returning path %s" % (p.end,), where_of(f), fn=f.key)
                 continue
             ret = N(p.ret)
             conds = [(N(c[0]), c[1]) for c in p.conds if c[2] == "branch"]
-            # the only decision: discriminant of Try::branch(ok_or(NonZero::new(raw.1), InvalidRawEntity))
-            dec_ok = len(conds) == 1 and conds[0][0][0] == "discr" and is_call(conds[0][0][1], "branch") and is_call(conds[0][0][1][2][0], "Option::ok_or") and conds[0][0][1][2][0][2][0] == nz
+            dec_ok = len(conds) >= 1 and all(on_nz(c[0]) and not contains(c[0], lambda x: x == ("vfield", ("arg", 1), "0")) for c in conds)
             if ret[0] == "agg" and ret[3] == "Ok":
                 pay = ret[4][0][1]
                 d = dict(pay[4]) if pay[0] == "agg" else {}
                 v = d.get("version")
-                okv = v is not None and v[0] == "agg" and contains(v, lambda x: x[0] == "vdown" and x[2] == "Continue")
-                R.check(dec_ok and d.get("key") == ("vfield", ("arg", 1), "0") and okv, "C14-R3", key + "|ok", "Ok{key: raw.0, version: NonZero(raw.1)} iff raw.1 != 0",
+                okv = v is not None and on_nz(v) and contains(v, lambda x: x[0] == "vdown" and x[2] in ("Continue", "Some", "Ok"))
+                R.check(dec_ok and d.get("key") == ("vfield", ("arg", 1), "0") and okv, "C14-R3", key + "|ok", "Ok{key: raw.0, version: the NonZero of raw.1}, decided only by NonZero::new(raw.1)",
                         "Ok path yields %s under %s" % (show(pay)[:160], [show(c[0])[:80] for c in conds]), where_of(f), fn=f.key)
             else:
-                err = conds and is_call(conds[0][0][1][2][0], "Option::ok_or") and conds[0][0][1][2][0][2][1][0] == "agg" and conds[0][0][1][2][0][2][1][3] == "InvalidRawEntity"
-                R.check(dec_ok and bool(err) and is_call(ret, "from_residual"), "C14-R3", key + "|err", "Err(InvalidRawEntity) iff raw.1 == 0, no other rejection", "Err path returns %s" % show(ret)[:160], where_of(f), fn=f.key)
+                err = mentions_invalid_raw(ret) or any(mentions_invalid_raw(c[0]) for c in conds)
+                shape = (ret[0] == "agg" and ret[3] == "Err") or is_call(ret, "from_residual")
+                R.check(dec_ok and err and shape, "C14-R3", key + "|err", "Err(InvalidRawEntity) iff raw.1 == 0, no other rejection", "Err path returns %s under %s" % (show(ret)[:160], [show(c[0])[:80] for c in conds]), where_of(f), fn=f.key)
     # C09-R5 / C14: new_entity_direct is value preserving
     f = getfn(ctx, R, "entity::__internal::new_entity_direct")
     if f is not None:
